@@ -427,6 +427,15 @@ def main():
     if args.output_format != "custom" and args.msg_template is not None:
         parser.error("--msg-template can only be used with --format=custom")
 
+    # -l/-i are count options: more repetitions than there are ranks would
+    # index past the end of constants.RANKING further down
+    max_count = len(constants.RANKING)
+    if args.severity > max_count or args.confidence > max_count:
+        parser.error(
+            "-l/--level and -i/--confidence can be given at most %d times"
+            % (max_count - 1)
+        )
+
     # Check if confidence or severity level have been specified with strings
     if args.severity_string is not None:
         if args.severity_string == "all":
